@@ -262,7 +262,8 @@ impl ApplyOp for i64 {
     }
     fn apply_unary_op(&self, op: UnOp) -> Result<Self::Target, Self::Error> {
         match op {
-            UnOp::Neg => Ok(Primitive::Integer(-self)),
+            //negating the smallest integer overflows, it is 0 - x with a checked subtraction
+            UnOp::Neg => checked_i64(self.checked_neg(), BinOp::Sub),
             UnOp::Not => Err(OperatorError::unsupported_un_operation(
                 op,
                 PrimitiveKind::Integer,
@@ -340,7 +341,11 @@ impl ApplyOp for u64 {
     }
     fn apply_unary_op(&self, op: UnOp) -> Result<Self::Target, Self::Error> {
         match op {
-            UnOp::Neg => Ok(Primitive::Integer(-(*self as i64))),
+            //values above the integer range have no negation that fits
+            UnOp::Neg => checked_i64(
+                i64::try_from(*self).ok().and_then(|v| v.checked_neg()),
+                BinOp::Sub,
+            ),
             UnOp::Not => Err(OperatorError::unsupported_un_operation(
                 op,
                 PrimitiveKind::PositiveInteger,
